@@ -137,6 +137,43 @@ def xoroshiro_protocol(bitwidth, seed=1, n=4):
         if sim.inspect('rand') != exp or sim.inspect('ready') != 1:
             return dict(failed=True, observed=dict(request=k, after_idle=hex(sim.inspect('rand')),
                                                    ready=sim.inspect('ready')), expected=hex(exp))
+    # reseeding histories: (a) reseed after completed requests, idle, then request; (b) reseed in the
+    # middle of a generation.  A reseed alone produces no number (ready stays low until a request
+    # made after it completes), and the next request returns the first words of the NEW stream.
+    for scenario in ('idle', 'mid'):
+        sd = rnd.getrandbits(128) | 1
+        if scenario == 'mid':
+            sim.step({'load': 0, 'req': 1, 'seed': 0})            # start a generation ...
+            sim.step({'load': 1, 'req': 0, 'seed': sd})           # ... and reseed right away
+        else:
+            sim.step({'load': 1, 'req': 0, 'seed': sd})
+        s0, s1 = sd & M64, sd >> 64
+        for i in range(words + 2):
+            sim.step({'load': 0, 'req': 0, 'seed': 0})
+            if sim.inspect('ready') == 1:
+                return dict(failed=True, observed=dict(scenario=scenario, idle_cycle=i, ready=1),
+                            expected='ready low: no request since the reseed')
+        sim.step({'load': 0, 'req': 1, 'seed': 0})
+        ws = []
+        for _ in range(words):
+            o, s0, s1 = xoroshiro_next(s0, s1)
+            ws.append(o)
+        cyc = 0
+        while True:
+            sim.step({'load': 0, 'req': 0, 'seed': 0})
+            cyc += 1
+            if sim.inspect('ready') == 1:
+                break
+            if cyc > words + 3:
+                return dict(failed=True, observed='ready never asserted after reseed (%s)' % scenario,
+                            expected='ready within %d cycles' % (words + 1))
+        full = 0
+        for w in ws:
+            full = (full << 64) | w
+        exp = full >> (64 * words - bitwidth)
+        if sim.inspect('rand') != exp or cyc != words:
+            return dict(failed=True, observed=dict(scenario=scenario, rand=hex(sim.inspect('rand')), cycles=cyc),
+                        expected=dict(rand=hex(exp), cycles=words))
     return dict(failed=False, observed='ok', expected='ok')
 
 
